@@ -353,3 +353,47 @@ func VerifC18_SameText() {
 	vAssert("same-text", written == direct)
 	vReach("compared")
 }
+
+// A command declares an option "v" of its own; later the parent declares
+// "verbose" with the alias "v", then the help command (which hands the parent's
+// options down). Whatever the command's help then lists, no name appears in
+// two entries and every entry's names are accepted by the parser at that level
+// for the option the entry describes.
+func VerifC18_LateParentAlias() {
+	vNativeReset()
+	vBound("split", 200)
+	opt := New()
+	cmd := opt.NewCommand("c", "a command")
+	cmd.SetCommandFn(func(c context.Context, o *GetOpt, a []string) error { return nil })
+	cmd.Bool("v", false, opt.Description("the command's own switch"))
+	opt.Bool("verbose", false, opt.Alias("v"), opt.Description("the parent's option"))
+	opt.HelpCommand("help", opt.Alias("?"))
+	vPhase("run")
+	_, err := opt.Parse([]string{"c"})
+	vAssert("late-alias/no-error", err == nil)
+	help := cmd.Help()
+	vObserve("help", help)
+	lines := strings.Split(help, "\n")
+	entriesWithV := 0
+	inOptions := false
+	for _, l := range lines {
+		if strings.HasPrefix(l, "OPTIONS:") || strings.HasPrefix(l, "REQUIRED PARAMETERS:") {
+			inOptions = true
+			continue
+		}
+		if l != "" && !strings.HasPrefix(l, " ") {
+			inOptions = false
+		}
+		if !inOptions || !strings.HasPrefix(l, "    -") {
+			continue
+		}
+		names := strings.Fields(l)[0]
+		for _, nm := range strings.Split(names, "|") {
+			if nm == "-v" {
+				entriesWithV++
+			}
+		}
+	}
+	vAssert("late-alias/name-in-one-entry-only", entriesWithV <= 1)
+	vReach("helped")
+}
